@@ -15,11 +15,15 @@ ASSUME = [
     "of ck-server (-c: 'path to the configuration file or its content'), the comments of cmd/ck-server/ck-server.go about the "
     ":443/:80 default and about harmonising BindAddr with the address of a Shadowsocks host, and the RedirAddr forms of "
     "internal/server/state_test.go; spec/ServerConfig.tla is a hand transcription of them",
-    "a private key is 32 bytes and a UID 16 bytes (what `ck-server -key` / `-uid` print); other lengths are malformed",
-    "where the documents are silent the row is 'undocumented' and never judged: RedirAddr absent / empty / '[v6]' / non-numeric "
-    "port, protocol names in capitals, CncMode, AdminUID that is not a UID (the README allows refusing as well as ignoring it; "
-    "if it is accepted DatabasePath must have no effect and nobody may become an unrestricted user), DatabasePath in a missing "
-    "directory",
+    "three outcome classes (ServerConfig.tla): documented-accept (judged field by field), documented-reject (a value of the "
+    "wrong shape: not base64, not a list, not a number, a ProxyBook value that is not a two-element array, an address that is "
+    "not IP:PORT, no private key: an error is demanded) and undocumented (no expectation beyond 'no panic'; what the code does "
+    "is recorded under coverage.observations)",
+    "undocumented, because no document speaks about them: the length of PrivateKey / BypassUID / AdminUID values, protocol "
+    "names other than tcp/udp (or in capitals), an empty ProxyBook address, RedirAddr absent / empty / '[v6]' / non-numeric "
+    "port, CncMode, DatabasePath in a missing directory, IsBypass for arguments that are not 16 bytes. An AdminUID that is "
+    "not a UID may be refused or ignored (README); if the configuration is accepted DatabasePath must have no effect and "
+    "nobody may become an unrestricted user through it",
     "'keep-alive disabled' is judged at the consumer: net.Dialer.KeepAlive < 0",
     "RedirAddr and ProxyBook addresses are IP literals (the sandbox has no DNS; name resolution is not asserted)",
     "listening sockets are observed in /proc/<pid>/net/tcp{,6} of a ck-server main() running in its own network namespace; "
@@ -202,7 +206,7 @@ def run(ctx):
         "rows_by_expected_outcome": {k[len("outcome:"):]: v for k, v in stats.items() if k.startswith("outcome:")},
         "harness_stats": {k: v for k, v in stats.items() if not k.startswith(("undoc:", "outcome:"))},
         "main_harness_stats": {k: v for k, v in mstats.items() if not k.startswith("undoc:")},
-        "undocumented_observed": {k[len("undoc:"):]: v for k, v in sorted(list(stats.items()) + list(mstats.items())) if k.startswith("undoc:")},
+        "observations": {k[len("undoc:"):]: v for k, v in sorted(list(stats.items()) + list(mstats.items())) if k.startswith("undoc:")},
         "full_product_rows_state": full,
         "states": sum(r["distinct"] for r in ctx.tlc_runs),
         "transitions": sum(r["generated"] for r in ctx.tlc_runs),
